@@ -5,6 +5,7 @@ import (
 	"go/constant"
 	"go/token"
 	"go/types"
+	"strings"
 
 	"golang.org/x/tools/go/ssa"
 )
@@ -922,5 +923,440 @@ func init() {
 			GErrFailed("batch.Delete(key)", f, dels),
 			GCond("count > 10000 (after the partial write)", f, Cmp(Any(), token.GTR, func(v ssa.Value) bool { return constIs(v, 10000) })),
 			GCond("it.Error() != nil", f, Cmp(CallRes("(ethdb.Iterator).Error"), token.NEQ, Nil())))
+	})
+}
+
+func init() {
+	extendProp("C32", "The created-in-this-transaction flag that SELFDESTRUCT (EIP-6780) trusts is revoked at the end of every transaction: every return of stateObject.finalise passes `s.newContract = false`, so a later transaction cannot destroy (and burn the balance of) a contract deployed earlier in the block.", []string{"core/state"}, func(c *Ctx) {
+		c.Rule("DOM/C32.newcontract")
+		cst := "core/state"
+		fin := c.Fn(cst, "(*stateObject).finalise")
+		if fin == nil {
+			return
+		}
+		var clr []Site
+		for _, s := range c.Stores(fin, cst+".stateObject.newContract") {
+			if ConstBool(false)(s.Instr.(*ssa.Store).Val) {
+				clr = append(clr, s)
+			}
+		}
+		c.Dom("revoked-at-tx-end", fin, c.Returns(fin), "return", GSites("s.newContract = false", clr))
+		// and the opcode consults exactly that flag
+		n := 0
+		for _, f := range c.AllFuncs("core/vm") {
+			if f.Name() != "opSelfdestruct6780" {
+				continue
+			}
+			n++
+			c.Funcs[f] = true
+			calls := c.Calls(f, "(core/vm.StateDB).IsNewContract")
+			c.Check(len(calls) > 0, "consults-flag/"+fnName(f), f.Pos(), "the EIP-6780 opcode asks the state whether the contract is new", "opSelfdestruct6780 no longer consults IsNewContract")
+		}
+		c.Expect(1, n, "opSelfdestruct6780")
+	})
+}
+
+// journalCapturesPrev: a journal entry that records the previous value of a
+// field reads that field before the field is changed (in the same function, or
+// through the raw setter called there).
+func journalCapturesPrev(c *Ctx, rule string) {
+	c.Rule(rule)
+	cst := "core/state"
+	jn := "(*" + cst + ".journal)."
+	rawSetter := map[string]string{ // field -> raw writer called by the journalling wrapper
+		"core/types.StateAccount.Balance": "(*" + cst + ".stateObject).setBalance",
+		"core/types.StateAccount.Nonce":   "(*" + cst + ".stateObject).setNonce",
+	}
+	n := 0
+	for _, f := range c.AllFuncs(cst) {
+		for _, j := range c.Calls(f, jn+"refundChange|"+jn+"balanceChange|"+jn+"nonceChange") {
+			call := j.Instr.(*ssa.Call)
+			for _, a := range callArgs(&call.Call) {
+				ld, ok := a.(*ssa.UnOp)
+				if !ok || ld.Op != token.MUL {
+					continue
+				}
+				fa, ok := ld.X.(*ssa.FieldAddr)
+				if !ok {
+					continue
+				}
+				fld := fieldAddrName(fa)
+				if fld != cst+".StateDB.refund" && rawSetter[fld] == "" {
+					continue
+				}
+				n++
+				c.Funcs[f] = true
+				var muts []ssa.Instruction
+				eachInstr(f, func(in ssa.Instruction) {
+					if st, ok := in.(*ssa.Store); ok {
+						if sfa, ok := st.Addr.(*ssa.FieldAddr); ok && fieldAddrName(sfa) == fld {
+							muts = append(muts, in)
+						}
+					}
+				})
+				if rs := rawSetter[fld]; rs != "" {
+					for _, s := range c.Calls(f, rs) {
+						muts = append(muts, s.Instr)
+					}
+				}
+				bad := ""
+				for _, m := range muts {
+					if instrReaches(m, ld) {
+						bad = c.pos(m.Pos())
+					}
+				}
+				name := "prev-read-before-write/" + fnName(f) + "/" + calleeName(&call.Call)
+				switch {
+				case len(muts) == 0:
+					c.Undecided(name, j.Pos(), "no mutation of "+fld+" found next to the journal entry that records its previous value")
+				case bad != "":
+					c.Bad(name, j.Pos(), "the journal entry reads "+fld+" after it was changed (at "+bad+"): reverting the frame restores the new value, not the one before the change")
+				default:
+					c.OK(name, j.Pos(), "the previous value is read before the field is changed")
+				}
+			}
+		}
+	}
+	c.Expect(4, n, "journal entries capturing a previous value by reading the field")
+}
+
+func init() {
+	dec := "A journal entry that records a field's previous value by reading the field (refund counter, balance, nonce) reads it before the field is changed, so a revert restores the value from before the frame."
+	extendProp("C13", dec, nil, func(c *Ctx) { journalCapturesPrev(c, "ORDER/C13.prevalue") })
+	extendProp("C29", dec, []string{"core/state"}, func(c *Ctx) { journalCapturesPrev(c, "ORDER/C29.prevalue") })
+}
+
+// linTerms decomposes v into a signed sum of struct fields of type owner.
+// A phi is accepted only at the top (a clamp of the whole sum to the constant 0).
+func linTerms(v ssa.Value, owner string, top bool, depth int) (map[string]int, bool) {
+	if depth > 12 {
+		return nil, false
+	}
+	add := func(a, b map[string]int, sign int) map[string]int {
+		out := map[string]int{}
+		for k, n := range a {
+			out[k] += n
+		}
+		for k, n := range b {
+			out[k] += sign * n
+		}
+		for k, n := range out {
+			if n == 0 {
+				delete(out, k)
+			}
+		}
+		return out
+	}
+	switch x := v.(type) {
+	case *ssa.Convert:
+		return linTerms(x.X, owner, top, depth+1)
+	case *ssa.ChangeType:
+		return linTerms(x.X, owner, top, depth+1)
+	case *ssa.BinOp:
+		if x.Op != token.ADD && x.Op != token.SUB {
+			return nil, false
+		}
+		a, ok1 := linTerms(x.X, owner, false, depth+1)
+		b, ok2 := linTerms(x.Y, owner, false, depth+1)
+		if !ok1 || !ok2 {
+			return nil, false
+		}
+		if x.Op == token.ADD {
+			return add(a, b, 1), true
+		}
+		return add(a, b, -1), true
+	case *ssa.Field:
+		if n := fieldName(x); hasPrefix(n, owner+".") {
+			return map[string]int{n[len(owner)+1:]: 1}, true
+		}
+	case *ssa.UnOp:
+		if fa, ok := x.X.(*ssa.FieldAddr); ok && x.Op == token.MUL {
+			if n := fieldAddrName(fa); hasPrefix(n, owner+".") {
+				return map[string]int{n[len(owner)+1:]: 1}, true
+			}
+		}
+		if a, ok := x.X.(*ssa.Alloc); ok && x.Op == token.MUL {
+			// local cell: single value or clamp pattern handled through its stores
+			var vals []ssa.Value
+			for _, r := range *a.Referrers() {
+				if st, ok := r.(*ssa.Store); ok && st.Addr == ssa.Value(a) {
+					vals = append(vals, st.Val)
+				}
+			}
+			if len(vals) == 1 {
+				return linTerms(vals[0], owner, top, depth+1)
+			}
+		}
+	case *ssa.Phi:
+		if !top {
+			return nil, false
+		}
+		var res map[string]int
+		for _, e := range x.Edges {
+			if constIs(e, 0) {
+				continue
+			}
+			t, ok := linTerms(e, owner, false, depth+1)
+			if !ok {
+				return nil, false
+			}
+			if res != nil && fmt.Sprint(res) != fmt.Sprint(t) {
+				return nil, false
+			}
+			res = t
+		}
+		return res, res != nil
+	case *ssa.Call:
+		cal := x.Call.StaticCallee()
+		if cal == nil || len(cal.Blocks) == 0 || cal.Signature.Recv() == nil {
+			return nil, false
+		}
+		var rets []*ssa.Return
+		eachInstr(cal, func(in ssa.Instruction) {
+			if r, ok := in.(*ssa.Return); ok {
+				rets = append(rets, r)
+			}
+		})
+		if len(rets) != 1 || len(rets[0].Results) != 1 {
+			return nil, false
+		}
+		return linTerms(rets[0].Results[0], owner, top, depth+1)
+	}
+	return nil, false
+}
+
+func hasPrefix(s, p string) bool { return len(s) >= len(p) && s[:len(p)] == p }
+
+func fieldName(x *ssa.Field) string {
+	st := x.X.Type().Underlying().(*types.Struct)
+	return namedName(x.X.Type()) + "." + st.Field(x.Field).Name()
+}
+
+func init() {
+	extendProp("C31", "A reverted or halted frame hands back exactly the reservoir it started with: the StateGas of the budget returned by ExitRevert/ExitHalt is the signed sum StateGas + UsedStateGas − Spilled (clamped at zero only as a whole), and its execution gas on revert is ExecutionGas + Spilled.", nil, func(c *Ctx) {
+		c.Rule("SHAPE/C31.reservoir")
+		vmp := "core/vm"
+		gb := vmp + ".GasBudget"
+		for _, fn := range []string{"ExitRevert", "ExitHalt"} {
+			f := c.Fn(vmp, "(GasBudget)."+fn)
+			if f == nil {
+				continue
+			}
+			c.Funcs[f] = true
+			sts := c.Stores(f, gb+".StateGas")
+			c.Expect(1, len(sts), "StateGas of the budget returned by "+fn)
+			for _, s := range sts {
+				t, ok := linTerms(s.Instr.(*ssa.Store).Val, gb, true, 0)
+				good := ok && len(t) == 3 && t["StateGas"] == 1 && t["UsedStateGas"] == 1 && t["Spilled"] == -1
+				c.Check(good, "reservoir/"+fn, s.Pos(), "handed-back reservoir = StateGas + UsedStateGas − Spilled (clamped only as a whole)",
+					fmt.Sprintf("the reservoir handed back by %s is not the signed sum StateGas + UsedStateGas − Spilled clamped as a whole (decomposed: %v, linear=%v): a frame whose net state-gas use is negative mints state gas, or one that borrowed loses it", fn, t, ok))
+			}
+		}
+		if f := c.Fn(vmp, "(GasBudget).ExitRevert"); f != nil {
+			for _, s := range c.Stores(f, gb+".ExecutionGas") {
+				t, ok := linTerms(s.Instr.(*ssa.Store).Val, gb, true, 0)
+				good := ok && len(t) == 2 && t["ExecutionGas"] == 1 && t["Spilled"] == 1
+				c.Check(good, "execution/ExitRevert", s.Pos(), "a reverted frame returns ExecutionGas + Spilled", fmt.Sprintf("ExitRevert's execution gas is not ExecutionGas + Spilled (decomposed: %v)", t))
+			}
+		}
+	})
+}
+
+func init() {
+	extendProp("C34", "Every mutated, non-deleted account gets its storage-trie witness collected: in IntermediateRoot's per-account loop (Merkle-Patricia arm) an iteration ends only after the account was skipped as applied/deleted or its worker — the one place that adds the storage trie's accessed nodes for mutated accounts — was launched, and that worker adds obj.trie.Witness() when a witness is being built.", nil, func(c *Ctx) {
+		c.Rule("LOOPALL/C34.mutated")
+		cst := "core/state"
+		ir := c.Fn(cst, "(*StateDB).IntermediateRoot")
+		if ir == nil {
+			return
+		}
+		gos := c.Calls(ir, "(*golang.org/x/sync/errgroup.Group).Go")
+		c.Expect(1, len(gos), "worker launches in IntermediateRoot")
+		hs := rangeLoopHeadersMap(ir, func(v ssa.Value) bool { return matchField(fieldOfLoad(v), cst+".StateDB.mutations") })
+		n := 0
+		for _, h := range hs {
+			// the loop that launches the workers
+			inLoop := false
+			for _, g := range gos {
+				if h.Dominates(g.Instr.Block()) {
+					for _, be := range loopBackEdges(ir, h) {
+						if instrReaches(g.Instr, be.Instr) {
+							inLoop = true
+						}
+					}
+				}
+			}
+			if !inLoop {
+				continue
+			}
+			n++
+			isApplied := func(v ssa.Value) bool {
+				u, ok := v.(*ssa.UnOp)
+				if !ok {
+					return false
+				}
+				fa, ok := u.X.(*ssa.FieldAddr)
+				return ok && fieldAddrName(fa) == cst+".mutation.applied"
+			}
+			gA := GCond("op.applied", ir, True(isApplied))
+			gD := GCond("op.isDelete()", ir, True(CallRes("(*"+cst+".mutation).isDelete")))
+			// a back edge that is itself one of the skip edges is discharged by construction
+			var targets []Site
+			for _, p := range h.Preds {
+				if !h.Dominates(p) {
+					continue
+				}
+				skip := false
+				for i, sc := range p.Succs {
+					if sc == h && (gA.Steps[0].Edges[Edge{p, i}] || gD.Steps[0].Edges[Edge{p, i}]) {
+						skip = true
+					}
+				}
+				if skip {
+					c.OK("worker-per-account/"+fnName(ir)+"/skip-edge", p.Instrs[len(p.Instrs)-1].Pos(), "iteration ends on the applied/deleted skip itself")
+					continue
+				}
+				targets = append(targets, Site{ir, p.Instrs[len(p.Instrs)-1]})
+			}
+			c.Dom("worker-per-account", ir, targets, "end of one iteration", GSites("workers.Go(update root + witness)", gos), gA, gD)
+		}
+		c.Expect(1, n, "mutation loop launching the workers")
+		// the worker adds the storage trie's witness
+		for _, g := range gos {
+			mc, ok := g.Instr.(*ssa.Call).Call.Args[1].(*ssa.MakeClosure)
+			if !ok {
+				c.Undecided("worker-body", g.Pos(), "worker is not a closure literal")
+				continue
+			}
+			w := mc.Fn.(*ssa.Function)
+			c.Funcs[w] = true
+			as := c.Calls(w, "(*core/stateless.Witness).AddState")
+			c.Check(len(as) == 1 && Mentions(CallRes("(core/state.Trie).Witness"))(as[0].Instr.(*ssa.Call).Call.Args[1]), "worker-adds-witness/"+fnName(w), w.Pos(), "the worker adds obj.trie.Witness()", "the per-account worker no longer adds the storage trie's witness")
+		}
+	})
+}
+
+func init() {
+	extendProp("C36", "The block builder derives the new header's excess blob gas under the schedule of the block being built: the head timestamp given to CalcExcessBlobGas in prepareWork is the new header's own time (the value stored in its Time field, or a read of it), the same value the importer's VerifyEIP4844Header uses, and the parent argument is the parent header.", []string{"consensus/misc/eip4844"}, func(c *Ctx) {
+		c.Rule("SAMEVAL/C36.forktime")
+		f := c.Fn("miner", "(*Miner).prepareWork")
+		if f == nil {
+			return
+		}
+		calls := c.Calls(f, "consensus/misc/eip4844.CalcExcessBlobGas")
+		c.Expect(1, len(calls), "CalcExcessBlobGas in prepareWork")
+		// the value stored as the new header's time
+		var timeVals []ssa.Value
+		var hdr ssa.Value
+		for _, s := range c.Stores(f, "core/types.Header.Time") {
+			st := s.Instr.(*ssa.Store)
+			timeVals = append(timeVals, st.Val)
+			hdr = st.Addr.(*ssa.FieldAddr).X
+		}
+		c.Expect(1, len(timeVals), "store of the new header's Time in prepareWork")
+		for _, s := range calls {
+			arg := s.Instr.(*ssa.Call).Call.Args[2]
+			ok := false
+			for _, tv := range timeVals {
+				if sameValue(arg, tv) {
+					ok = true
+				}
+			}
+			if u, isLoad := arg.(*ssa.UnOp); isLoad && hdr != nil {
+				if fa, isFA := u.X.(*ssa.FieldAddr); isFA && fieldAddrName(fa) == "core/types.Header.Time" && sameValue(fa.X, hdr) {
+					ok = true
+				}
+			}
+			c.Check(ok, "head-time/"+fnName(f), s.Pos(), "excess blob gas is computed for the new header's own timestamp", "the timestamp given to CalcExcessBlobGas is not the new header's time: on the first block of a fork that changes the blob schedule the builder and the importer (VerifyEIP4844Header, header.Time) disagree and the built block is rejected")
+		}
+		// importer side uses header.Time with the parent
+		if v := c.TryFn("consensus/misc/eip4844", "VerifyEIP4844Header"); v != nil {
+			c.Funcs[v] = true
+			for _, s := range c.Calls(v, "consensus/misc/eip4844.CalcExcessBlobGas") {
+				a := s.Instr.(*ssa.Call).Call.Args
+				u, isLoad := a[2].(*ssa.UnOp)
+				good := false
+				if isLoad {
+					if fa, isFA := u.X.(*ssa.FieldAddr); isFA && fieldAddrName(fa) == "core/types.Header.Time" && Param("header")(fa.X) {
+						good = true
+					}
+				}
+				c.Check(good && Param("parent")(a[1]), "importer/"+fnName(v), s.Pos(), "the importer recomputes with (parent, header.Time)", "VerifyEIP4844Header no longer recomputes the excess with (parent, header.Time)")
+			}
+		}
+	})
+}
+
+func init() {
+	extendProp("C22", "The merged iterator's inputs carry pairwise distinct priorities ordered by recency: in newFastIterator every in-memory (diff/buffer) iterator gets the loop's depth counter and every persistent-state iterator gets depth+1, so a key present in the write buffer and on disk is resolved in favour of the buffer.", nil, func(c *Ctx) {
+		c.Rule("SHAPE/C22.priority")
+		pd := "triedb/pathdb"
+		f := c.Fn(pd, "newFastIterator")
+		if f == nil {
+			return
+		}
+		c.Funcs[f] = true
+		type lit struct {
+			it, prio ssa.Value
+			pos      token.Pos
+		}
+		lits := map[ssa.Value]*lit{}
+		eachInstr(f, func(in ssa.Instruction) {
+			st, ok := in.(*ssa.Store)
+			if !ok {
+				return
+			}
+			fa, ok := st.Addr.(*ssa.FieldAddr)
+			if !ok {
+				return
+			}
+			switch fieldAddrName(fa) {
+			case pd + ".weightedIterator.it":
+				l := lits[fa.X]
+				if l == nil {
+					l = &lit{}
+					lits[fa.X] = l
+				}
+				l.it, l.pos = st.Val, st.Pos()
+			case pd + ".weightedIterator.priority":
+				l := lits[fa.X]
+				if l == nil {
+					l = &lit{}
+					lits[fa.X] = l
+				}
+				l.prio = st.Val
+			}
+		})
+		c.Expect(6, len(lits), "weightedIterator literals in newFastIterator")
+		isDepth := func(v ssa.Value) bool {
+			phi, ok := v.(*ssa.Phi)
+			if !ok || len(phi.Edges) != 2 {
+				return false
+			}
+			for i, e := range phi.Edges {
+				if constIs(e, 0) {
+					b, ok := phi.Edges[1-i].(*ssa.BinOp)
+					return ok && b.Op == token.ADD && b.X == ssa.Value(phi) && constIs(b.Y, 1)
+				}
+			}
+			return false
+		}
+		for _, l := range lits {
+			kind := ""
+			if call, ok := ifaceSrc(l.it).(*ssa.Call); ok {
+				kind = calleeName(&call.Call)
+			}
+			short := kind[strings.LastIndex(kind, ".")+1:]
+			switch {
+			case strings.HasPrefix(short, "newDisk"):
+				b, ok := l.prio.(*ssa.BinOp)
+				good := ok && b.Op == token.ADD && isDepth(b.X) && constIs(b.Y, 1)
+				c.Check(good, "disk-below-buffer/"+short, l.pos, "the persistent-state iterator ranks one below the write buffer of the same layer (depth+1)", "the persistent-state iterator does not get priority depth+1: it ties with (or outranks) the write buffer, so a stale on-disk entry can win over the unflushed one")
+			case strings.HasPrefix(short, "newDiff"):
+				c.Check(isDepth(l.prio), "memory-at-depth/"+short, l.pos, "the in-memory iterator ranks at the layer's depth", "an in-memory iterator's priority is not the layer's depth counter")
+			default:
+				c.Undecided("kind", l.pos, "weightedIterator built from an unrecognised constructor "+kind)
+			}
+		}
 	})
 }
